@@ -79,6 +79,9 @@ class Gen:
     # ---- helpers -----------------------------------------------------------
     def pick_names(self, label, pool, n):
         out, seen = [], set()
+        if self.k.get("keyword_names") and pool in (FIELD_NAMES, ARG_NAMES):
+            # GraphQL names that are Python keywords (the generator appends an underscore to the Python name)
+            pool = pool + (["from", "global", "import", "pass", "class"] if pool is FIELD_NAMES else ["from", "in", "is"])
         order = self.ch.shuffle(label, pool)
         for x in order:
             if _norm(x) in seen:
@@ -457,7 +460,7 @@ class OpGen:
 
 DEFAULT_KNOBS = {"max_enums": 3, "max_inputs": 3, "max_objects": 5, "max_fields": 5, "max_args": 3, "max_depth": 3,
                  "max_ops": 4, "max_frags": 6, "custom_scalars": True, "defaults": True, "abstract": True,
-                 "extensions": True, "descriptions": False, "deep_lists": True, "deprecated_inputs": False}
+                 "extensions": True, "descriptions": False, "deep_lists": True, "deprecated_inputs": False, "keyword_names": False}
 
 
 def draw_knobs(ch: Choices, **over) -> Dict[str, Any]:
